@@ -522,15 +522,20 @@ func writeRawZip(path string, entries []mzEntry) error {
 				return err
 			}
 			io.Copy(w, &zeroReader{bigSize})
-		case "lie-more", "lie-less":
+		case "lie-more", "lie-less", "over", "huge":
 			// deflate the real content, declare another uncompressed size
 			var cb bytes.Buffer
 			fw, _ := newFlate(&cb)
 			fw.Write(data)
 			fw.Close()
 			declared := uint64(len(data) - 4)
-			if e.Size == "lie-less" {
+			switch e.Size {
+			case "lie-less":
 				declared = uint64(len(data) + 4)
+			case "over":
+				declared = uint64(mzip.MaxZipFile) + 1
+			case "huge":
+				declared = 1 << 63
 			}
 			h := &azip.FileHeader{Name: name, Method: azip.Deflate, CRC32: crc(data), CompressedSize64: uint64(cb.Len()), UncompressedSize64: declared}
 			w, err := zw.CreateRaw(h)
@@ -578,6 +583,7 @@ func checkZipArchive(c *core.Case) ([]core.Violation, bool) {
 	var exp struct {
 		Valid, Invalid [][]int
 		Unzipok        bool
+		Sizeerr        bool
 		Tree           [][]int
 	}
 	json.Unmarshal(c.Exp, &exp)
@@ -603,6 +609,9 @@ func checkZipArchive(c *core.Case) ([]core.Violation, bool) {
 	gotV, gotI := nzs(cf.Valid), errPaths(cf.Invalid)
 	if !core.Eq(gotV, nzs(concrete.Strs(exp.Valid))) || !core.Eq(nzs(gotI), nzs(concrete.Strs(exp.Invalid))) {
 		add("c12:checkzip", "CheckZip: valid %q invalid %q (err %v); the documented restrictions give valid %q invalid %q", gotV, gotI, cerr, concrete.Strs(exp.Valid), concrete.Strs(exp.Invalid))
+	}
+	if (cf.SizeError != nil) != exp.Sizeerr || (cerr == nil) != (len(gotI) == 0 && cf.SizeError == nil) {
+		add("c12:size-limit", "CheckZip: size error %v, err %v; the declared sizes %s the limit of %d bytes", cf.SizeError, cerr, map[bool]string{true: "exceed", false: "are within"}[exp.Sizeerr], int64(mzip.MaxZipFile))
 	}
 	// extraction into a fresh target inside a sentinel directory that must stay untouched otherwise
 	os.MkdirAll(filepath.Join(sentinel, "parent", "sibling"), 0755)
@@ -708,7 +717,9 @@ func (w *modzipWorld) Record(rng *rand.Rand, n int, emit func(k string, in, obs 
 					name += "/"
 				}
 				size := "ok"
-				if !benign && rng.Intn(20) == 0 {
+				if !benign && rng.Intn(40) == 0 {
+					size = []string{"over", "huge"}[rng.Intn(2)]
+				} else if !benign && rng.Intn(20) == 0 {
 					size = []string{"lie-more", "lie-less"}[rng.Intn(2)]
 				}
 				entries = append(entries, mzEntry{Name: concrete.Ints(name), Size: size})
@@ -794,5 +805,5 @@ func zipArchiveObs(entries []mzEntry) map[string]any {
 		}
 		sort.Strings(tree)
 	}
-	return map[string]any{"valid": concrete.IntsList(nzs(cf.Valid)), "invalid": concrete.IntsList(nzs(errPaths(cf.Invalid))), "unzipok": uerr == nil, "tree": concrete.IntsList(tree)}
+	return map[string]any{"valid": concrete.IntsList(nzs(cf.Valid)), "invalid": concrete.IntsList(nzs(errPaths(cf.Invalid))), "sizeerr": cf.SizeError != nil, "unzipok": uerr == nil, "tree": concrete.IntsList(tree)}
 }
